@@ -260,15 +260,19 @@ def normalise(log, check_names):
 
 
 # ---------------------------------------------------------------------------------- execution
-def run_reader(cid, model, table, mode, limit, api):
-    import cutplace
-    from cutplace import errors
-
+def _source(model, table):
     if model.kind == "fixed":
         text = "".join("".join(row) + "\n" for row in table)
     else:
         text = storage.delimited_text(table)
-    source = io.StringIO(text, newline="")
+    return io.StringIO(text, newline="")
+
+
+def run_reader(cid, model, table, mode, limit, api, prepared=None):
+    import cutplace
+    from cutplace import errors
+
+    source = _source(model, table)
     try:
         if api == "rows":
             for number, item in enumerate(cutplace.rows(cid, source, on_error=mode, validate_until=limit), 1):
@@ -280,8 +284,12 @@ def run_reader(cid, model, table, mode, limit, api):
         elif api == "validate":
             # the validate-only API: raises at the first rejected row, and nothing beyond the limit causes a call
             cutplace.validate(cid, source, validate_until=limit)
-        elif api in ("reader", "reader-again"):
-            if api == "reader-again" and KEEP.get("reader") is not None:
+        elif api in ("reader", "reader-again", "reader-prepared"):
+            if api == "reader-prepared" and prepared is not None:
+                # a Reader that was created before the first run of the plan began (several validators set up at
+                # once, used one after the other): its data set begins with its first row, not with its creation
+                reader, source = prepared
+            elif api == "reader-again" and KEEP.get("reader") is not None:
                 # the Reader of the run before (read completely or aborted, and closed) is asked for its rows once
                 # more: a run of its own, driven by the same protocol
                 reader, source = KEEP["reader"], KEEP["source"]
@@ -368,6 +376,22 @@ def check_case(ctx, model, table, plan):
     names = [c["desc"] for c in model.rec_checks]
     nontrivial = model.header > 0 or any(c["behaviour"] != "accept" for c in model.rec_checks)
     KEEP.clear()
+    prepared = {}
+    try:
+        import cutplace
+
+        for index, (api, mode, limit) in enumerate(plan):
+            if api == "reader-prepared":
+                source = _source(model, table)
+                prepared[index] = (cutplace.Reader(cid, source, on_error=mode, validate_until=limit), source)
+                ctx.count("readers.created-before-the-first-run")
+    except Exception as error:
+        from cpverif import core
+
+        mod, fn = core.innermost_cutplace_frame(error)
+        ctx.case(case, True)
+        ctx.violation("C20:crash:%s@%s.%s" % (type(error).__name__, mod, fn), case, "creating a Reader failed with an internal error", observed=error)
+        return
     for index, (api, mode, limit) in enumerate(plan):
         del LOG[:]
         del ERRORS_SEEN[:]
@@ -391,7 +415,7 @@ def check_case(ctx, model, table, plan):
                 run_writer(cid, model, data_rows, cid_path)
             else:
                 want = predict_read(model, raw, mode, limit)
-                run_reader(cid, model, table, mode, limit, api)
+                run_reader(cid, model, table, mode, limit, api, prepared.get(index))
         except Unjudged as u:
             ctx.unjudged(str(u))
             return
@@ -491,6 +515,8 @@ def gen_plan(rng, model, table):
         plan.append((api, mode, limit))
         if api == "reader" and rng.random() < 0.4:
             plan.append(("reader-again", mode, limit))
+        elif api == "reader" and rng.random() < 0.4:
+            plan[-1] = ("reader-prepared", mode, limit)
     return plan
 
 
